@@ -1,0 +1,12 @@
+//go:build verif
+
+package storage
+
+// VerifHook is called at instrumented points (verification builds only).
+var VerifHook func(point string, key any)
+
+func verifPoint(point string, key any) {
+	if h := VerifHook; h != nil {
+		h(point, key)
+	}
+}
